@@ -181,7 +181,7 @@ def run_net(case, res, log):
                 total_gap = sum(g for g, _ in rx[-1:])
                 if not (isinstance(exc, dns.exception.Timeout)):
                     raise Violation("C13:valid-stream-rejected", f"{tag}: {type(exc).__name__}({exc}) although stream and network were fine")
-        outs[world] = ("exc", type(exc).__name__) if exc is not None else ("ok", hash(after) & 0xFFFFFF)
+        outs[world] = ("exc", type(exc).__name__) if exc is not None else ("ok", Z.stable_hash(after))
         log.add(world, outs[world], transport, f, info["fired"], verdict[0])
         res.sim_seconds += VT.elapsed()
     if len(outs) == 2 and outs["sync"] != outs["async"]:
